@@ -58,3 +58,95 @@ def _(e, c, a):
 
 class ReadyUnit(PyObj):
     def m_poll(self, e, *a): return Enum('Poll', 0, [mk_unit()])
+
+
+# ---------------------------------------------------------------- poll_fn, timers (environment-driven)
+class PollFn(PyObj):
+    """futures::future::poll_fn(closure)"""
+    def __init__(self, clo): self.clo = clo
+    def m_poll(self, e, *a):
+        return e.call_closure(self.clo if isinstance(self.clo, Ref) else Ref(Cell(self.clo)), [Opaque('Context')])
+
+
+@model(r'(?:^|::)poll_fn$')
+def _(e, c, a): return PollFn(a[0])
+
+
+def env_choice(e, label, n):
+    """an environment event with n possible outcomes: the harness decides (symbolic choice); without a harness hook the
+    run is inconclusive"""
+    h = getattr(e, 'env_hook', None)
+    if h is None: raise Unmodelled('environment event %s without a harness model' % label)
+    return h(label, n)
+
+
+class IntervalObj(PyObj):
+    """tokio::time::Interval: whether a tick is due at a poll is an environment event"""
+    def __init__(self, period): self.period = period; self.polls = 0
+    def m_poll_tick(self, e, *a):
+        self.polls += 1
+        if env_choice(e, 'tick', 2) == 0: return Enum('Poll', 1)
+        from .misc import now
+        return Enum('Poll', 0, [now(e)])
+
+
+@model(r'^interval$|tokio::time::interval$|time::interval::interval$|^tokio::time::interval_at$')
+def _(e, c, a): return IntervalObj(a[0])
+
+
+@model(r'Interval::poll_tick$')
+def _(e, c, a):
+    v = un(a[0])
+    while isinstance(v, Struct) and v.name == 'Pin': v = un(v.f[0].v)
+    return v.m_poll_tick(e)
+
+
+# ---------------------------------------------------------------- streams / sinks given by a harness
+class MapErrStream(PyObj):
+    def __init__(self, inner, fn): self.inner = inner; self.fn = fn
+    def m_poll_next(self, e, s, cx):
+        r = un(self.inner).mir_call(e, 'Stream', 'poll_next', [self.inner, cx])
+        if r.variant == 1: return r
+        item = un(r.f[0].v)
+        if item.variant == 0: return r
+        res = un(item.f[0].v)
+        if res.variant == 1: return Enum('Poll', 0, [Some(Err(e.call_fn_value(self.fn, [res.f[0].v])))])
+        return r
+
+
+@model(r' as (futures::)?(\w+::)*TryStreamExt>::map_err$')
+def _(e, c, a):
+    if isinstance(un(a[0]), PyObj): return MapErrStream(a[0], a[1])
+    raise Unmodelled(c)
+
+
+@model(r' as (tokio_util::)?(\w+::)*Decoder>::framed$')
+def _(e, c, a): return Opaque('Framed', a[1])
+
+
+@model(r' as (futures::)?(\w+::)*StreamExt>::split$')
+def _(e, c, a):
+    io = getattr(e, 'session_io', None)
+    if io is None: raise Unmodelled('split of a framed socket without a harness model')
+    return Tuple(io[0], io[1])
+
+
+def _unpin(v):
+    v = un(v)
+    while isinstance(v, Struct) and v.name == 'Pin': v = un(v.f[0].v)
+    return v
+
+
+@model(r' as (futures::)?(\w+::)*Stream>::poll_next$| as (futures::)?(\w+::)*StreamExt>::poll_next_unpin$')
+def _(e, c, a):
+    v = _unpin(a[0])
+    if isinstance(v, PyObj): return v.mir_call(e, 'Stream', 'poll_next', [a[0]] + list(a[1:]))
+    raise Unmodelled('poll_next on %r' % (v,))
+
+
+@model(r' as (futures::)?(\w+::)*Sink<.*>>::(poll_ready|start_send|poll_flush|poll_close)$| as (futures::)?(\w+::)*Sink>::(poll_ready|start_send|poll_flush|poll_close)$')
+def _(e, c, a):
+    import re as _re
+    v = _unpin(a[0]); meth = _re.sub(r'::<.*$', '', c.rstrip()).split('::')[-1]
+    if isinstance(v, PyObj): return v.mir_call(e, 'Sink', meth, [a[0]] + list(a[1:]))
+    raise Unmodelled('%s on %r' % (meth, v))
